@@ -9,7 +9,7 @@ for d in sorted(os.listdir(BASE)):
     if not os.path.exists(mp): continue
     m = json.load(open(mp))
     r = res.get(d, {})
-    def cell(pid):
+    def cell(pid, sibling=False):
         x = r.get(pid)
         if x is None: return "not run"
         if x.get("exit") is None: return "n/a"
@@ -18,9 +18,9 @@ for d in sorted(os.listdir(BASE)):
             ob = "; ".join(v.split("obligation=")[1].split(" origin=")[0] for v in x.get("violations", [])[:2] if "obligation=" in v)
             return f"**caught** ({ob})"
         if e == 2: return "undecided (exit 2)"
-        return "missed (exit 0)"
+        return "quiet (exit 0)" if sibling else "missed (exit 0)"
     own = cell(m["property"])
-    others = ", ".join(f"{p}: {cell(p)}" for p in r if p != m["property"])
+    others = ", ".join(f"{p}: {cell(p, True)}" for p in r if p != m["property"])
     rows.append(f"| {d} | {m['title'][:90]} | {', '.join(m['files_changed'])} | {own} | {others} |")
 out = ["# Seeded changes", "",
        "Each change was written by an independent sub-agent that saw only the property text and a scratch worktree, and was",
